@@ -219,6 +219,10 @@ class Bundle:
         if name is not None and val.name is not None:  # Both set, fail.
             msg = f"{val} with conflicting names {name} and {val.name} cannot be added to Bundle {self.name}"
             raise RuntimeError(msg)
+        if (name if name is not None else val.name) in _banned:
+            # Same rule as for attribute-assignment: these are the Bundle's own attributes.
+            msg = f"Error attempting to over-write protected attribute {name or val.name} of Bundle {self}"
+            raise RuntimeError(msg)
         if name is not None:  # One or the other set - great.
             val.name = name
 
